@@ -104,6 +104,10 @@ def _root_.RsslVerif.Gen.ArithSites.FlagSrc.eval (f : FlagSrc) (caller : Bool) :
 /-- `trim_whitespace_start` -/
 def trimStart (l : List Tok) : List Tok := l.dropWhile (·.k.isBlank)
 
+/-- `trim_whitespace_and_endlines_start` (fix f08088c): also skips `Token::Endline`, so that the `(` of a
+    function-like macro invocation may follow on a later line -/
+def trimStartNL (l : List Tok) : List Tok := l.dropWhile (·.k.isWhitespace)
+
 /-- `trim_whitespace_end` -/
 def trimEnd (l : List Tok) : List Tok := (l.reverse.dropWhile (·.k.isBlank)).reverse
 
@@ -191,9 +195,10 @@ def scanArgs : List Tok → List Tok → List (List Tok) → Nat → Except Err 
       else scanArgs rest (cur ++ [t]) args (depth - 1)
     | _ => scanArgs rest (cur ++ [t]) args depth
 
-/-- `split_macro_args`: (tokens after the closing parenthesis, arguments) -/
+/-- `split_macro_args`: (tokens after the closing parenthesis, arguments); the opening parenthesis is looked for
+    after blanks *and line ends* since f08088c -/
 def splitArgs (remaining : List Tok) : Except Err (List Tok × List (List Tok)) :=
-  match trimStart remaining with
+  match trimStartNL remaining with
   | ⟨.lparen, _, _⟩ :: rest => scanArgs rest [] [] 0
   | _ => .error .macroRequiresArguments
 
@@ -215,9 +220,10 @@ inductive Found where
   | none
   deriving DecidableEq, Repr, Inhabited
 
-/-- index of the `(` that follows token `i` after blanks: `activate_pos = tokens.len() - trimmed.len()` -/
+/-- index of the `(` that follows token `i` after blanks and line ends (`trim_whitespace_and_endlines_start`):
+    `activate_pos = tokens.len() - trimmed.len()` -/
 def parenAfter (toks : List Tok) (i : Nat) : Option Nat :=
-  match trimStart (toks.drop (i + 1)) with
+  match trimStartNL (toks.drop (i + 1)) with
   | ⟨.lparen, _, _⟩ :: tail => some (toks.length - (tail.length + 1))
   | _ => none
 
@@ -317,8 +323,12 @@ def readArgs (m : Macro) (remaining : List Tok) : Except Err (List Tok × List (
     | .error e => .error e
     | .ok (rest, args) =>
       if m.numParams = 0 then
+        -- `args.len() == 1 && trim_whitespace_and_endlines_start(args[0]).is_empty()`: "the empty argument
+        -- list may still hold a line break"
         match args with
-        | [[]] => .ok (rest, args)
+        | [a] =>
+          if (trimStartNL a).isEmpty then .ok (rest, args)
+          else .error .macroExpectsDifferentNumberOfArguments
         | _ => .error .macroExpectsDifferentNumberOfArguments
       else if args.length ≠ m.numParams then .error .macroExpectsDifferentNumberOfArguments
       else .ok (rest, args)
